@@ -212,7 +212,18 @@ BLS12_381_G1 = dict(
     G=(0x17F1D3A73197D7942695638C4FA9AC0FC3688C4F9774B905A14E3A3F171BAC586C55E83FF97A1AEFFB3AF00ADB22C6BB,
        0x08B3F481E3AAA0F1A09E30ED741D8AE4FCF5E095D5D00AF600DB18CB2C04B3EDD03CC744A2888AE40CAA232946C5E7E1),
     n=0x73EDA753299D7D483339D80809A1D80553BDA402FFFE5BFEFFFFFFFF00000001)
-PRODUCTION = {c["name"]: c for c in (SECP256K1, SECP256R1, BLS12_381_G1)}
+# a user-constructed curve whose group order is wider than 256 bits (NIST P-384, FIPS 186-4 D.1.2.4; p % 4 == 3 as pycoin's
+# Generator requires); pycoin ships no module for it - the C02 drivers build Generator(p, a, b, G, n) from these constants.
+# Binding: selfcheck() verifies G on the curve, n*G = infinity and (n-1)*G = -G like for the shipped curves.
+NIST_P384 = dict(
+    name="nist_p384",
+    p=2 ** 384 - 2 ** 128 - 2 ** 96 + 2 ** 32 - 1,
+    a=2 ** 384 - 2 ** 128 - 2 ** 96 + 2 ** 32 - 1 - 3,
+    b=0xB3312FA7E23EE7E4988E056BE3F82D19181D9C6EFE8141120314088F5013875AC656398D8A2ED19D2A85C8EDD3EC2AEF,
+    G=(0xAA87CA22BE8B05378EB1C71EF320AD746E1D3B628BA79B9859F741E082542A385502F25DBF55296C3A545E3872760AB7,
+       0x3617DE4A96262C6F5D9E98BF9292DC29F8F41DBD289A147CE9DA3113B5F0B8C00A60B1CE1D7E819D7A431D7C90EA0E5F),
+    n=0xFFFFFFFFFFFFFFFFFFFFFFFFFFFFFFFFFFFFFFFFFFFFFFFFC7634D81F4372DDF581A0DB248B0A77AECEC196ACCC52973)
+PRODUCTION = {c["name"]: c for c in (SECP256K1, SECP256R1, BLS12_381_G1, NIST_P384)}
 
 
 def _parse_vectors(path, hex_xy):
